@@ -32,6 +32,12 @@ type CopyParams struct {
 	DstKind string    `json:"dst"`
 	API     string    `json:"api"` // Copy | CopyGraph | ExtendedCopy | ExtendedCopyGraph
 	SrcRef  string    `json:"src_ref,omitempty"`
+	// UserFinder (ExtendedCopy*): the caller configures FindPredecessors itself (a recorded
+	// callback that asks the source), below whatever filter is drawn
+	UserFinder bool `json:"user_finder,omitempty"`
+	// Second (C03): after a first call that a fault made fail, the same process makes another,
+	// fault-free call from this other node with Depth 1 into a fresh destination
+	Second *int `json:"second,omitempty"`
 	// SrcByDigest (Copy): the source reference is the root's digest string, not a tag name
 	SrcByDigest bool           `json:"src_by_digest,omitempty"`
 	DstRef      string         `json:"dst_ref,omitempty"`
@@ -268,6 +274,12 @@ func (p *copyProp) Gen(r *Rand, tier string, idx int) any {
 		cp.API = pick(r, []string{"ExtendedCopy", "ExtendedCopyGraph"})
 		if r.Chance(0.12) {
 			cp.CancelAt = drawSingleFault(r, len(g.Nodes), true)
+			if r.Chance(0.6) {
+				// predecessor lookups are what leaves a walk half done
+				cp.CancelAt.Store, cp.CancelAt.Op, cp.CancelAt.Node, cp.CancelAt.Kind = "src", "Predecessors", r.Intn(len(g.Nodes)), "before"
+			}
+			n2 := r.Intn(len(g.Nodes))
+			cp.Second = &n2
 		}
 		cp.Root = r.Intn(len(g.Nodes))
 		if remote && !g.Nodes[cp.Root].IsManif {
@@ -296,6 +308,15 @@ func (p *copyProp) Gen(r *Rand, tier string, idx int) any {
 			// (a file store answers a second push of a named file with duplicate-name, which fails the copy)
 			for k := r.Range(1, 2); k > 0; k-- {
 				cp.Raced = append(cp.Raced, r.Intn(len(g.Nodes)))
+			}
+		}
+		if cp.API == "ExtendedCopyGraph" && r.Chance(0.4) {
+			cp.UserFinder = true
+			if r.Bool() {
+				cp.FilterAnnK = pick(r, annKeys)
+				cp.FilterAnnRe = pick(r, []string{"", "v1", "^beta", "."})
+			} else if r.Bool() {
+				cp.FilterAT = pick(r, []string{"sbom", "^application/vnd\\.example\\.", "sig$"})
 			}
 		}
 		cp.Concurrency = r.Range(1, 8)
@@ -793,6 +814,14 @@ func (env *copyEnv) exec2(rc *RunCtx, faults []FaultSpec, checks func(m *Monitor
 			ex.err = oras.CopyGraph(ctx, srcStorage, dstStorage, rootDesc, gopts)
 		case "ExtendedCopy", "ExtendedCopyGraph":
 			eo := oras.ExtendedCopyGraphOptions{CopyGraphOptions: gopts, Depth: cp.Depth}
+			if cp.UserFinder {
+				eo.FindPredecessors = func(ctx context.Context, s content.ReadOnlyGraphStorage, d ocispec.Descriptor) ([]ocispec.Descriptor, error) {
+					if err := mon.callback("FindPredecessors", g.Lookup(d)); err != nil {
+						return nil, err
+					}
+					return s.Predecessors(ctx, d)
+				}
+			}
 			if cp.FilterAT != "" {
 				eo.FilterArtifactType(regexp.MustCompile(cp.FilterAT))
 			}
@@ -1234,6 +1263,9 @@ func (p *copyProp) runInBubble(rc *RunCtx, sc *Scenario, cp *CopyParams, g *Grap
 			if cp.MapRoot == "child" {
 				cbs = append(cbs, "MapRoot")
 			}
+			if cp.UserFinder {
+				cbs = append(cbs, "FindPredecessors", "FindPredecessors")
+			}
 			f := FaultSpec{Store: "cb", Op: cbs[cp.FaultPicks[0]%uint64(len(cbs))], Node: int(cp.FaultPicks[1] % uint64(len(g.Nodes))), Occur: 1, Kind: "before"}
 			if w := (cp.FaultPicks[0] / 1024) % 10; w < 4 {
 				f.Wrap = []string{"not-found", "already-exists", "unsupported", "size-exceeds"}[w]
@@ -1338,6 +1370,20 @@ func (p *copyProp) judgeCopyOnce(rc *RunCtx, env *copyEnv, info *RunInfo, closur
 			// what a cancelled or failed call leaves behind is the subject of C02
 			info.Probes["cancelled_or_failed_call"]++
 			info.Outcome = "cancelled"
+			if cp.Second != nil && p.id == "C03" && env.src.kind != "remote" && !cp.Chain {
+				// the process goes on: another call, from another node, must not inherit anything
+				second, err := makeStore(rc, "memory", "second")
+				if err != nil {
+					return nil
+				}
+				defer second.close()
+				cp2 := *cp
+				cp2.Root, cp2.Depth, cp2.API, cp2.DstKind = *cp.Second%len(g.Nodes), 1, "ExtendedCopyGraph", "memory"
+				cp2.CancelAt, cp2.Second, cp2.Pre, cp2.Raced, cp2.Chain, cp2.FilterAT, cp2.FilterAnnK, cp2.FilterAnnRe = nil, nil, nil, nil, false, "", "", ""
+				env2 := &copyEnv{g: g, cp: &cp2, src: env.src, dst: second}
+				info.Probes["second_call_after_a_failed_one"]++
+				return p.judgeCopyOnce(rc, env2, info, nil, map[int]bool{}, account, outcomeCheck)
+			}
 			return nil
 		}
 		info.Probes["call_reported_success_despite_cancellation_or_failure"]++
